@@ -416,7 +416,7 @@ pub fn run(m128: bool, seed: u64, steps: usize, judge: Judge, prefix: &str, ctx:
             sn.frame_t = tprime as u32;
             // (the header's flag byte describes the writer, e.g. its "alternate timings" variant; this machine's timing
             // is the one the property fixes, whatever the file says)
-            let opt = crate::snapfmt::SzxOptions { compress: vec![step % 2 == 0; 8], hdr_flags: if (seed >> 45) & 1 == 1 { 1 | rng.u8() } else { 0 }, ..Default::default() };
+            let opt = crate::snapfmt::SzxOptions { compress: vec![step % 2 == 0; 8], hdr_flags: if (seed >> 45) & 1 == 1 { 1 | rng.u8() } else { 0 }, hold_int: if (seed >> 44) & 1 == 1 { rng.u8() } else { 0 }, ..Default::default() };
             if e.load_snapshot(rustzx_core::host::Snapshot::Szx(crate::host::SimAsset::plain(crate::snapfmt::write_szx(&sn, &opt)))).is_ok() && e.verif_frame_clocks() as u64 == tprime {
                 ctx.probe(if tprime < now { "lockstep_szx_reload_clock_backwards" } else { "lockstep_szx_reload_clock_forwards" });
                 sync_model_from_machine(&mut e, &mut m, m128);
